@@ -96,7 +96,8 @@ def verify(ctx, route, case, u, scheme, explicit, hostkind, sig):
         _, auth, _, _, _, _ = rfc.split(s)
         _, _, _, ptxt, _ = rfc.split_authority(auth or "")
         shown = ptxt is not None
-        if shown != m["shown"] or (shown and ptxt != str(m["explicit"])):
+        # the shown port may be spelled as it was written (encoded=True keeps the text); its value is what counts
+        if shown != m["shown"] or (shown and not (ptxt.isascii() and ptxt.isdigit() and int(ptxt) == m["explicit"])):
             bad.append(("str_port", str(m["explicit"]) if m["shown"] else None, ptxt))
         u2 = guarded(URL, s)
         if is_exc(u2) or guarded(lambda: u2.port) != m["port"]:
@@ -233,7 +234,7 @@ def run(ctx):
                             expect_reject(ctx, "text-encoded", {"route": "text-encoded", "s": s}, ue, {"ValueError"}, ("text-enc",) + sig)
                         else:
                             _late(ctx, ue, s, sig)
-                for t in PORT_TEXTS_ZEROS:
+                for t in PORT_TEXTS_ZEROS + ([str(DEFAULT[scheme]).zfill(4)] if scheme in DEFAULT else []):
                     s = pre + ":" + t + "/p"
                     u = guarded(URL, s)
                     case = {"route": "text", "s": s}
@@ -242,6 +243,22 @@ def run(ctx):
                         ctx.fail("valid_rejected", case, f"URL({s!r}) raised {u!r}")
                     else:
                         verify(ctx, "text", case, u, scheme, int(t), hk, ("text", scheme, "zeros:" + t, hk, uk))
+                    # routes that keep the netloc text verbatim: encoded=True, build(authority, encoded=True), unpickled copies, and URLs derived from them
+                    if hk == "idn":
+                        continue
+                    import pickle as _pickle
+
+                    a = uitext + htext + ":" + t
+                    for route, fn in (("text-encoded", lambda: URL(s, encoded=True)), ("authority-encoded", lambda: URL.build(scheme=scheme, authority=a, path="/p", encoded=True)),
+                                      ("encoded-pickled", lambda: _pickle.loads(_pickle.dumps(URL(s, encoded=True)))), ("encoded-child", lambda: URL(s, encoded=True) / "c"),
+                                      ("encoded-with_query", lambda: URL(s, encoded=True).with_query("a=1")), ("encoded-with_fragment", lambda: URL(s, encoded=True).with_fragment("f"))):
+                        ue = guarded(fn)
+                        c2 = {"route": route, "s": s}
+                        if is_exc(ue):
+                            ctx.ev((route, scheme, "zeros", hk, uk, "exc"))
+                            ctx.fail("valid_rejected", c2, f"{route} raised {ue!r}")
+                        else:
+                            verify(ctx, route, c2, ue, scheme, int(t), hk, (route, scheme, "zeros:" + t, hk, uk))
                 for t in PORT_TEXTS_LENIENT:
                     s = pre + ":" + t + "/p"
                     u = guarded(URL, s)
